@@ -88,7 +88,7 @@ pub fn c03_deep_case(seed: u64, case: u64) -> CaseResult {
     res.trace.push(format!("depth {} place {} caps {:?}", depth, place, caps));
     let up = guard(|| m.update(d1.as_object().unwrap().clone()));
     if !up.is_ok() {
-        res.viol("C08", "deep-update-failed", format!("update of a document nested {} levels: {}", depth, up.describe()));
+        res.viol(if matches!(up, Outcome::Panic(_)) { "C08" } else { "C04" }, "deep-update-failed", format!("update of a document nested {} levels: {}", depth, up.describe()));
         return res;
     }
     let (got, ok) = read_doc(&m);
@@ -100,7 +100,7 @@ pub fn c03_deep_case(seed: u64, case: u64) -> CaseResult {
     let heads = match c {
         Outcome::Ok(Some(h)) => h,
         o => {
-            res.viol("C08", "deep-commit-failed", format!("depth {}: {}", depth, o.describe()));
+            res.viol(if matches!(o, Outcome::Panic(_)) { "C08" } else { "C03" }, "deep-commit-failed", format!("depth {}: {}", depth, o.describe()));
             return res;
         }
     };
@@ -136,7 +136,7 @@ pub fn c03_deep_case(seed: u64, case: u64) -> CaseResult {
                 }
             }
         }
-        o => res.viol("C08", "deep-reopen-failed", format!("depth {}: {}", depth, o.describe())),
+        o => res.viol(if matches!(o, Outcome::Panic(_)) { "C08" } else { "C03" }, "deep-reopen-failed", format!("depth {}: {}", depth, o.describe())),
     }
     // a second version and a second replica
     let depth2 = pick_depth(&mut r);
@@ -148,7 +148,7 @@ pub fn c03_deep_case(seed: u64, case: u64) -> CaseResult {
         m.commit(None)
     });
     if !s2.is_ok() {
-        res.viol("C08", "deep-second-commit-failed", s2.describe());
+        res.viol(if matches!(s2, Outcome::Panic(_)) { "C08" } else { "C03" }, "deep-second-commit-failed", s2.describe());
         return res;
     }
     let (pad, _) = store::mon_mem();
@@ -214,7 +214,7 @@ pub fn shapes_case() -> CaseResult {
             };
             let up = guard(|| m.update(d.as_object().unwrap().clone()));
             if !up.is_ok() {
-                res.viol("C08", "shape-update-failed", format!("shape {} ({}): {}", n, ds, up.describe()));
+                res.viol(if matches!(up, Outcome::Panic(_)) { "C08" } else { "C04" }, "shape-update-failed", format!("shape {} ({}): {}", n, ds, up.describe()));
                 continue;
             }
             if !step(&m, d, "after update", &mut res) {
@@ -222,7 +222,7 @@ pub fn shapes_case() -> CaseResult {
             }
             let c = guard(|| m.commit(None));
             if !matches!(c, Outcome::Ok(Some(_))) {
-                res.viol("C08", "shape-commit-failed", format!("shape {} ({}): {}", n, ds, c.describe()));
+                res.viol(if matches!(c, Outcome::Panic(_)) { "C08" } else { "C03" }, "shape-commit-failed", format!("shape {} ({}): {}", n, ds, c.describe()));
                 continue;
             }
             step(&m, d, "after commit", &mut res);
@@ -234,7 +234,7 @@ pub fn shapes_case() -> CaseResult {
                         res.viol(if got.starts_with("PANIC") { "C08" } else { "C03" }, "shape-reopen-differs", format!("shape {} ({}): reopened replica reads {}", n, ds, trunc(&got, 300)));
                     }
                 }
-                o => res.viol("C08", "shape-reopen-failed", format!("shape {}: {}", n, o.describe())),
+                o => res.viol(if matches!(o, Outcome::Panic(_)) { "C08" } else { "C03" }, "shape-reopen-failed", format!("shape {}: {}", n, o.describe())),
             }
             // the same document again changes nothing
             let again = guard(|| {
